@@ -13,12 +13,12 @@ from harness.common import Machinery
 from harness.drivers import request_wait as rw
 
 CLAUSES = {
-    "C01": ["OnlyOwnResponse", "FirstResponse", "ExactlyOneRequest", "TimeoutIfNone", "PayloadExact",
+    "C01": ["OnlyOwnResponse", "FirstResponse", "ExactlyOneRequest", "TimeoutIfNone", "EndedByDeadline", "PayloadExact",
             "WireContent", "OutcomeKind", "AllDoneAtEnd"],
     "C14": ["EndsByDeadline", "EndedByDeadline", "CancelPrompt", "CancelPromptDone", "CancelOutcome",
             "OneCancelNotif", "NeverSentIfPreCancelled", "PreCancelledNeverSent", "ProgressSound",
             "ProgressExact", "ProgressValues", "AllDoneAtEnd", "OutcomeKind"],
-    "C18": ["OnlyOwnResponse", "NoLostResponse", "PayloadExact", "OutcomeKind", "AllDoneAtEnd"],
+    "C18": ["OnlyOwnResponse", "NoLostResponse", "EndedByDeadline", "PayloadExact", "OutcomeKind", "AllDoneAtEnd"],
     "C07": ["ErrNeverNormal"],
 }
 
